@@ -274,11 +274,12 @@ func init() {
 			return false
 		}, nil),
 		Floors: []string{"history_deletes_checked", "history_postconditions_checked"}})
+	c11n := scenarioCases(4800, 96000)
 	register(&Check{Prop: "C11", Level: "exploration",
-		Rule:   "scenario family with pause / deletion flags raised at random moments; non-trivial = reconcile of a paused or deleting set",
-		Assume: simAssumptions, Cases: scenarioCases(4800, 96000),
-		Run:    scenarioFamily("C11", cfgDefault, mon.CheckC11, func(v *mon.View) bool { return v.Paused || v.Deleting }, nil),
-		Floors: []string{"paused_reconciles_checked", "deleting_reconciles_checked", "reconciles_of_sets_deleting_in_api"}})
+		Rule:   "scenario family with pause / deletion flags raised at random moments (non-trivial = reconcile of a paused or deleting set); plus pause twins through the event-driven loop (ordered cache delivery -> the controller's own handlers -> virtual-time queue -> processNextWorkItem): the same user edits with and without a pause window (raised at quiescence or mid-work, lowered as the only change) must end quiescent, converged and in the same state, with no write inside the window",
+		Assume: simAssumptions, Cases: func(t string) int { return c11n(t) + scenarioCases(600, 12000)(t) },
+		Run:    both(scenarioFamily("C11", cfgDefault, mon.CheckC11, func(v *mon.View) bool { return v.Paused || v.Deleting }, nil), c11n, runC11Pause),
+		Floors: []string{"paused_reconciles_checked", "deleting_reconciles_checked", "reconciles_of_sets_deleting_in_api", "pause_twins_compared", "pause_windows_raised_mid_work"}})
 }
 
 var directedC03 []func(*fam)
